@@ -572,6 +572,30 @@ func CheckC13(c *C13Case, st *Stats) error {
 		if err := checkSharedInstance(c, st); err != nil {
 			return err
 		}
+		// the same tree with nested containers that are user-defined derived types
+		n := 0
+		cont := buildDerived(c.Tree, 1+c.ShareFrom%3, &n, true)
+		if n > 0 {
+			st.Count("derived_nested")
+			want, err := Snap(cont)
+			if err != nil {
+				return err
+			}
+			var nat any
+			if o, ok := cont.(at.Object); ok {
+				nat = o.NativeDict()
+			} else {
+				nat = cont.(at.List).NativeSlice()
+			}
+			var foreign []string
+			got := normNative(nat, &foreign, "$")
+			if len(foreign) > 0 {
+				return errf("native export of a tree holding derived containers is not plain Go data: %v", foreign)
+			}
+			if !EqVBits(got, want) {
+				return errf("native export of a tree holding derived containers differs: %s, expected %s", got.Show(), want.Show())
+			}
+		}
 	}
 	return checkNative(c, st)
 }
